@@ -20,12 +20,12 @@ const (
 )
 
 type token struct {
-	k    tkind
-	s    string
-	pos  int  // byte offset in the source
-	end  int  // byte offset after the token
-	nl   bool // a line terminator precedes the token
-	tmpl int  // for tTemplate: 0 complete, 1 head, 2 middle, 3 tail
+	k     tkind
+	s     string
+	pos   int  // byte offset in the source
+	end   int  // byte offset after the token
+	nl    bool // a line terminator precedes the token
+	tmpl  int  // for tTemplate: 0 complete, 1 head, 2 middle, 3 tail
 	block bool // for "{": opens a block/body (not an object literal or pattern)
 }
 
@@ -377,9 +377,9 @@ func tokenize(src string) []token {
 					case tIdent:
 						block = !(p.s == "return" || p.s == "typeof" || p.s == "in" || p.s == "of" || p.s == "instanceof" || p.s == "new" || p.s == "void" || p.s == "delete" || p.s == "throw" || p.s == "case" || p.s == "yield" || p.s == "await")
 					case tTemplate:
-						block = false
+						block = p.tmpl == 0 || p.tmpl == 3 // after a complete template only ASI + block is possible
 					default:
-						block = false
+						block = true // after a literal a "{" can only start a block (ASI) or a body
 					}
 				}
 				stmtAfter = append(stmtAfter, block)
